@@ -20,21 +20,32 @@ mod verif_types {
         match k % 6 { 0 => io::ErrorKind::WouldBlock, 1 => io::ErrorKind::ConnectionRefused, 2 => io::ErrorKind::Interrupted, 3 => io::ErrorKind::BrokenPipe, 4 => io::ErrorKind::InvalidInput, _ => io::ErrorKind::Other }
     }
 
-    //@H name=c03_error_from_io props=C03 fn=MetricError::from(io::Error),kind,source :: an error built from the sink's io::Error is I/O-kind, wraps exactly that error and exposes it as its source
-    #[kani::proof]
-    fn c03_error_from_io() {
-        let k = any_io_kind();
-        let e = MetricError::from(io::Error::from(k));
-        assert!(e.kind() == ErrorKind::IoError, "[C03] an error converted from io::Error has kind IoError");
-        assert!(e.verif_io_kind() == Some(k), "[C03] the wrapped error is the one given");
-        let inner: *const u8 = match e.repr { ErrorRepr::IoError(ref x) => x as *const io::Error as *const u8, _ => std::ptr::null() };
-        match error::Error::source(&e) {
-            Some(s) => assert!(s as *const (dyn error::Error + 'static) as *const u8 == inner, "[C03] source() is the wrapped io::Error itself"),
-            None => assert!(false, "[C03] an I/O-kind error has a source"),
-        }
-        kani::cover!(true, "end");
-        std::mem::forget(e);
+    macro_rules! from_io {
+        ($name:ident, $kind:expr) => {
+            #[kani::proof]
+            fn $name() {
+                let k: io::ErrorKind = $kind;
+                let e = MetricError::from(io::Error::from(k));
+                assert!(e.kind() == ErrorKind::IoError, "[C03] an error converted from the sink's io::Error has kind IoError, whatever the io::ErrorKind");
+                assert!(e.verif_io_kind() == Some(k), "[C03] the wrapped error is the one given");
+                let inner: *const u8 = match e.repr { ErrorRepr::IoError(ref x) => x as *const io::Error as *const u8, _ => std::ptr::null() };
+                match error::Error::source(&e) {
+                    Some(s) => assert!(s as *const (dyn error::Error + 'static) as *const u8 == inner, "[C03] source() is the wrapped io::Error itself"),
+                    None => assert!(false, "[C03] an I/O-kind error has a source"),
+                }
+                kani::cover!(true, "end");
+                std::mem::forget(e);
+            }
+        };
     }
+    //@H name=c03_error_from_io_wouldblock props=C03 fn=MetricError::from(io::Error),kind,source :: io::Error(WouldBlock) => I/O-kind error wrapping exactly that error, exposed as its source
+    from_io!(c03_error_from_io_wouldblock, io::ErrorKind::WouldBlock);
+    //@H name=c03_error_from_io_interrupted props=C03 fn=MetricError::from(io::Error),kind,source :: io::Error(Interrupted) => I/O-kind error wrapping exactly that error
+    from_io!(c03_error_from_io_interrupted, io::ErrorKind::Interrupted);
+    //@H name=c03_error_from_io_invalidinput props=C03 fn=MetricError::from(io::Error),kind,source :: io::Error(InvalidInput) => still an I/O-kind error (the io kind must not leak into the metric error kind)
+    from_io!(c03_error_from_io_invalidinput, io::ErrorKind::InvalidInput);
+    //@H name=c03_error_from_io_other props=C03 fn=MetricError::from(io::Error),kind,source :: io::Error(Other) => I/O-kind error wrapping exactly that error
+    from_io!(c03_error_from_io_other, io::ErrorKind::Other);
 
     //@H name=c03_error_from_desc props=C03 fn=MetricError::from((ErrorKind,&str)),kind,source :: an error built from (kind, description) reports that kind and has no source
     #[kani::proof]
